@@ -109,6 +109,7 @@ type kase struct {
 	txs    map[string]*pb.Transaction // abstract version name -> setup transaction
 	names  map[string]string          // hex txid -> abstract version name
 	amt    int
+	reopen bool // the next projection also reads on a node reopened on a copy of the data
 	resp   *protos.InvokeResponse
 	robs   respObs
 	setupN int
@@ -420,6 +421,28 @@ func (c *kase) project() (o obs) {
 	o.Keys, o.Scan, o.Ref = c.readKeys(rd), c.scanKeys(rd), c.refKeys(st)
 	o.Cold, o.Cscan = c.readKeys(crd), c.scanKeys(crd)
 	c.w.stats["cold_reads"] += len(o.Cold)
+	if c.reopen {
+		// a third reader: a node opened NOW on a copy of the stored data (what a restart gives).  Its answers are merged into
+		// those of the second node: where the two differ the recorded value shows both.
+		c.reopen = false
+		r, err := c.w.node.Clone(c.w.node.Name + "r")
+		if err != nil {
+			o.Cold = append(o.Cold, keyObs{"reopen failed", err.Error()})
+		} else {
+			rrd := r.State.CreateXMReader()
+			rk, rs := c.readKeys(rrd), c.scanKeys(rrd)
+			for i := range o.Cold {
+				if i < len(rk) && rk[i] != o.Cold[i] {
+					o.Cold[i] = keyObs{o.Cold[i].Val + " | reopened: " + rk[i].Val, o.Cold[i].Ver + " | reopened: " + rk[i].Ver}
+				}
+			}
+			if fmt.Sprint(rs) != fmt.Sprint(o.Cscan) {
+				o.Cscan = append(append(o.Cscan, -8), rs...)
+			}
+			r.Drop()
+			c.w.stats["reopened_reads"] += len(rk)
+		}
+	}
 	bal := func(a string) int64 {
 		b, err := st.GetBalance(a)
 		if err != nil {
